@@ -382,12 +382,12 @@ impl Runner {
 
     /// blocking-pop histories: timeouts are 300/900 ms against a 600 ms grid of the logical clock, so an
     /// operation may run up to 250 ms behind the logical instant it belongs to.  An operation that would start
-    /// more than 150 ms behind moves the logical clock to the next grid point first (and waits for it): the
+    /// more than 100 ms behind moves the logical clock to the next grid point first (and waits for it): the
     /// time it records in the op is what the model's clock follows.
     fn sync_clock(&mut self) {
         const GRID: i128 = 600;
         let el = self.t0.elapsed().as_millis() as i128;
-        if el - self.logical > 150 {
+        if el - self.logical > 100 {
             let target = ((el + GRID - 1) / GRID) * GRID;
             self.logical = target;
             let now = self.t0.elapsed(); let tg = Duration::from_millis(target as u64);
